@@ -120,6 +120,8 @@ OFFSET_PLANS = [
     [("uint8", None, None), ("uint16", 4, 4), ("uint16", 12, None), ("uint8", None, None)],
     [("uint32", None, 4), ("int24", None, None), ("char", None, 12), ("uint64", None, None)],
     [("uint8", None, 1), ("uint16", None, 0), ("uint8", None, 5)],          # overlapping / going backwards
+    [("uint8", None, 0), ("char[]", None, None), ("uint16", None, 1), ("uint8", None, None)],   # explicit offset after a dynamic member
+    [("uint16", None, None), ("uint8[]", None, None), ("uint32", None, 2)],
 ]
 
 
@@ -131,7 +133,9 @@ def make_offsets(case):
         from dissect.cstruct import cstruct, compiler
         from dissect.cstruct.types.structure import Field
         cs = cstruct(endian=cfg["endian"])
-        fields = [Field(f"f{i}", cs.resolve(tn), bits=bits, offset=off) for i, (tn, bits, off) in enumerate(plan)]
+        def ty(tn):
+            return cs._make_array(cs.resolve(tn[:-2]), None) if tn.endswith("[]") else cs.resolve(tn)
+        fields = [Field(f"f{i}", ty(tn), bits=bits, offset=off) for i, (tn, bits, off) in enumerate(plan)]
         st = cs._make_struct("test", fields, align=cfg["align"])
         if compiled:
             st = compiler.compile(st)
@@ -162,8 +166,14 @@ def make_offsets(case):
         ctx.check("both readers return or both raise", out[0][0] == out[1][0], f"{out[0][0]}:{out[0][1] if out[0][0] == 'error' else ''} vs {out[1][0]}:{out[1][1] if out[1][0] == 'error' else ''}")
         if out[0][0] == out[1][0] == "value":
             vi, vc = out[0][1], out[1][1]
-            ctx.check("equal field values", R.And(*[getattr(vi, f"f{i}") == getattr(vc, f"f{i}") if plan[i][0] != "char" else
-                                                    R.bytes_eq(getattr(vi, f"f{i}"), getattr(vc, f"f{i}")) for i in range(len(plan))]))
+            def feq(i):
+                a, b = getattr(vi, f"f{i}"), getattr(vc, f"f{i}")
+                if plan[i][0].startswith("char"):
+                    return R.bytes_eq(a, b)
+                if plan[i][0].endswith("[]"):
+                    return len(a) == len(b) and R.And(*[x == y for x, y in zip(a, b)])
+                return a == b
+            ctx.check("equal field values", R.And(*[feq(i) for i in range(len(plan))]))
             ctx.check("same position afterwards", out[0][2] == out[1][2])
             ctx.check("equal recorded sizes", dict(vi._sizes) == dict(vc._sizes), f"{vi._sizes} vs {vc._sizes}")
     return run
@@ -176,7 +186,8 @@ def cases(tier, seed):
                 yield {"label": f"explicit-offsets {i}", "cfg": {"endian": e, "align": a}, "plan": [list(x) for x in plan], "make": "make_offsets"}
     for e in "<>":
         for a in (False, True):
-            for text in ("struct test { uint16 a; odd o; uint8 t; };", "struct test { uint16 a; uint8 b:3; odd o; };"):
+            for text in ("struct test { uint16 a; odd o; uint8 t; };", "struct test { uint16 a; uint8 b:3; odd o; };",
+                         "struct test { uint16 a; odd o[2]; uint8 t; };", "struct test { uint16 a; odd o[2][1]; uint8 t; };"):
                 yield {"label": "fallback", "cfg": {"endian": e, "align": a}, "text": text, "make": "make_fallback"}
     seen = set()
     for c in families.struct_cases(tier, seed):
